@@ -3,6 +3,7 @@
 package model3d
 
 import (
+	"sync"
 	"math"
 
 	"github.com/unixpickle/model3d/internal/vp"
@@ -78,10 +79,31 @@ func VP_C02_Bisect() {
 	vp.Reach("end")
 }
 
+// VP_C02_BisectSym: BisectInterior for symbolic segment ends (bit-precise
+// floats): the point it returns is one the solid was asked about and
+// answered "contained" for - the uninterpreted Contains predicate is only
+// known to be true where it said so, so a returned point that is computed by
+// a differently rounded expression (and may be an ulp away) is a violation.
+func VP_C02_BisectSym() {
+	n := vp.Param("n")
+	stub := &vpStubSolid{min: XYZ(-10, -10, -10), max: XYZ(10, 10, 10)}
+	est := &SolidSurfaceEstimator{Solid: stub, BisectCount: n}
+	// the segment is parallel to the x axis (the shape of a lattice edge)
+	a := XYZ(vp.Float64("ax"), 0.5, -0.25)
+	b := XYZ(vp.Float64("bx"), 0.5, -0.25)
+	vp.Assume(vp.All(a.X >= -8, a.X <= 8, b.X >= -8, b.X <= 8))
+	in1, in2 := stub.Contains(a), stub.Contains(b)
+	vp.Assume(in1 != in2)
+	inner := est.BisectInterior(a, b)
+	vp.Assert(stub.Contains(inner), "BisectInterior returns a contained point")
+	vp.Reach("end")
+}
+
 // vpLatticeStubSolid: lattice points have symbolic membership (empty outer
 // layer); every other point gets an arbitrary answer, recorded.
 type vpLatticeStubSolid struct {
 	vpLatticeSolid
+	mu      sync.Mutex // the search stage asks from several goroutines
 	queries []Coord3D
 	answers []bool
 }
@@ -91,8 +113,10 @@ func (l *vpLatticeStubSolid) Contains(c Coord3D) bool {
 		return l.vpLatticeSolid.Contains(c)
 	}
 	a := vp.MemoBool("contains", c.X, c.Y, c.Z)
+	l.mu.Lock()
 	l.queries = append(l.queries, c)
 	l.answers = append(l.answers, a)
+	l.mu.Unlock()
 	return a
 }
 
